@@ -502,7 +502,11 @@ Remove(pre, a, r, post) ==
      /\ Chk("C06.all cells vanished",
             ~(Len(post.cells) = 0 /\ Len(post.verts) >= post.D + 1))
      /\ (IF Len(post.cells) = 0 THEN Level1(post) ELSE StackOrBootstrap(post, post.cfg.g))
-     /\ (post.cfg.rp # "Never" /\ Len(post.cells) > 0 => ChkNSI("C06.repair enabled => Delaunay", post))
+     \* the repair after a removal is seeded with the cells around the removed vertex: it restores the Delaunay
+     \* level of a triangulation that HAD it (under EveryN(k) a triangulation may legitimately be non-Delaunay
+     \* between two scheduled repairs of insertions, and a removal does not promise to clean that up)
+     /\ (post.cfg.rp # "Never" /\ Len(post.cells) > 0 /\ NoStrictlyInside(pre)
+           => ChkNSI("C06.repair enabled => Delaunay", post))
   \/ /\ r.kind = "Ok" /\ a.v \notin VIds(pre)
      /\ Chk("C06.unknown vertex is a no-op", r.n = 0 /\ Obs(post) = Obs(pre))
   \/ /\ r.kind = "Err"
